@@ -1280,6 +1280,19 @@ def npSetCol (H : NpMat) (i : Nat) (rng : List Nat) : Option NpMat :=
     ],
 }
 
+# Tie-only module: composes `tie_Job_evaluate` (Tie/Eval.lean) with the refinement of the schedule model's per-design
+# program to the sequential model (Props/C07.lean, Proofs/ConcEval.lean): C07's parallel-equals-serial theorem stated about
+# the function regenerated from artap/job.py.  Nothing of its own is generated: `gen_of` names the module whose Gen file
+# is regenerated before Tie/ConcEval.lean is re-checked.
+SPECS["ConcEval"] = {
+    "source": SPECS["Eval"]["source"],
+    "serves": ["C07"],
+    "gen_of": "Eval",
+    "imports": list(SPECS["Eval"]["imports"]),
+    "open": list(SPECS["Eval"]["open"]),
+    "functions": SPECS["Eval"]["functions"],
+}
+
 SPECS["Store"] = SPECS.pop("Store")      # listed after StoreSync, which imports its generated module (a run against another
                                          # checkout puts the generated files back in listing order)
 
